@@ -1,5 +1,23 @@
 """Property -> machinery."""
 PROPS = {
+    "C07": {
+        "x": ["harness.hC07"],
+        "extra": ["harness.pC07.run"],
+        "level": "other",
+        "explanation": "Engine X on the whole real pipeline: SsbScriptSsbDecompiler.convert() (incl. the label resolver) is "
+                       "executed symbolically on routine sets whose offsets, gaps and jump targets are symbolic; the "
+                       "text, concrete on every path, is compiled by the real SsbScriptSsbCompiler (ANTLR, untraced) "
+                       "and the result is compared with the input while offsets are still symbolic: same routines, "
+                       "kinds, targets, opcodes, parameters, and every jump parameter denotes the corresponding op. "
+                       "Larger inputs (family F6) are compared directly as model validation.",
+        "technique": "CrossHair+z3 symbolic execution of the real SsbScript decompiler composed with the real "
+                     "SsbScript compiler (untraced stage), case-split over opcode kinds and layouts",
+        "level_text": "All offsets/gaps/targets within the bounds are covered by the solver for each opcode-kind "
+                      "combination; parameter values are C04's subject.",
+        "level_note": "Trusted: CrossHair, z3, ANTLR runtime executed concretely. Jump ops whose jump parameter is not "
+                      "the last one are outside the claim.",
+        "assumptions": ["opcode kinds and layouts enumerated by case split, offsets/targets symbolic"],
+    },
     "C15": {
         "x": ["harness.hC15"],
         "extra": ["harness.pC15.run"],
@@ -61,7 +79,7 @@ PROPS = {
         "assumptions": ["routine-set dimension enumerated", "reading the text with the real compiler (checked by C01)"],
     },
     "C06": {
-        "x": [],
+        "x": ["harness.hC06"],
         "extra": ["harness.pC06.run"],
         "engines": ["engine-t"],
         "engine": "engine-t",
